@@ -51,6 +51,7 @@ class Ctx:
         self.notes = []
         self.exhaustive = False
         self.extra = {}
+        self.search_only = False      # extended failing-input search (run.py): dynamic part only, obligations not re-checked
 
     # ---------------------------------------------------------------- bookkeeping
     def thorough(self):
@@ -78,6 +79,8 @@ class Ctx:
     def prove(self, modules, required, extra_targets=('driver',), gen_note=None):
         """Build the property's proof modules (+driver) and audit every theorem in them.
         `required`: theorem names that must be present (fully qualified)."""
+        if self.search_only:
+            return True
         modules = list(modules)
         hits = lean.forbidden_hits()
         self.obligations += 1
@@ -86,9 +89,7 @@ class Ctx:
             self.proof_failures.append(('forbidden-construct', '; '.join(hits[:5])))
         else:
             self.discharged += 1
-        if self.thorough():
-            lean.clean_modules(modules)
-        ok, log = lean.build(modules + list(extra_targets))
+        ok, log = lean.build(modules + list(extra_targets), clean=modules if self.thorough() else None)
         self.checker_cmds.append('cd lean && lake build ' + ' '.join(modules + list(extra_targets)))
         if not ok:
             errs = [l for l in log.split('\n') if 'error' in l][:8]
@@ -146,6 +147,8 @@ class Ctx:
 
     def bridge(self, name, ok, detail=''):
         """a bridging obligation checked outside `prove` (e.g. translator acceptance)"""
+        if self.search_only:
+            return
         self.obligations += 1
         self.obligation_names.append(name)
         if ok:
@@ -175,7 +178,7 @@ class Ctx:
         os.makedirs(REPLAYS, exist_ok=True)
         h = hashlib.sha1(json.dumps(payload, sort_keys=True, default=repr).encode()).hexdigest()[:10]
         path = os.path.join(REPLAYS, '%s-%s-%s.json' % (self.pid, kind, h))
-        payload = dict(payload, property=self.pid, kind=kind, seed=self.seed, tier=self.tier)
+        payload = dict(payload, property=self.pid, kind=kind, seed=payload.get('seed', self.seed), tier=self.tier)
         with open(path, 'w') as f:
             json.dump(payload, f, indent=1, default=repr)
         return os.path.relpath(path, VERIF)
@@ -192,7 +195,10 @@ class Ctx:
                 lines.append('KNOWN-FINDING: property=%s %s [%s]' % (self.pid, open_sigs[f['sig']].get('what', f['what']), f['sig']))
             else:
                 violations += 1
-                rp = self._write_replay('input', {'signature': f['sig'], 'what': f['what'], 'case': f['case'], 'occurrences': f['count']})
+                pl = {'signature': f['sig'], 'what': f['what'], 'case': f['case'], 'occurrences': f['count']}
+                if 'seed' in f:
+                    pl['seed'] = f['seed']      # found by the extended search under another seed
+                rp = self._write_replay('input', pl)
                 lines.append('VIOLATION property=%s replay=%s' % (self.pid, rp))
         # open known findings that did not reproduce are reported informally (not an alarm)
         for s, k in open_sigs.items():
